@@ -767,8 +767,9 @@ def _volume_attr_cases(ctx):
 def _dataset_cases(ctx, reqs, pend):
     from highdicom import spatial as sp
     from gen import sources
+    import copy
     from pydicom.sequence import Sequence as DSeq
-    n = ctx.n(24, 400)
+    n = ctx.n(32, 480)
     tcls = [sp.PixelToReferenceTransformer, sp.ReferenceToPixelTransformer, sp.ImageToReferenceTransformer,
             sp.ReferenceToImageTransformer]
 
@@ -780,10 +781,10 @@ def _dataset_cases(ctx, reqs, pend):
     for i in range(n):
         r = ctx.rng('ds', i)
         pl = _plane(r)
-        kind = ['single', 'perframe', 'shared', 'sparse', 'full', 'full'][i % 6]
+        kind = ['single', 'perframe', 'shared', 'sparse', 'full', 'full', 'perframe_all', 'full_multi'][i % 8]
         case = {'fn': 'for_image', 'kind': kind, 'plane': pl}
         row, col = np.array(pl['ori'][:3]), np.array(pl['ori'][3:])
-        if kind in ('single', 'perframe', 'shared'):
+        if kind in ('single', 'perframe', 'shared', 'perframe_all'):
             nfr = r.randint(1, 4)
             sl = _spacing(r)
             if kind == 'single':
@@ -791,6 +792,14 @@ def _dataset_cases(ctx, reqs, pend):
                 frames = [(ds, None, [float(x) for x in ds.ImagePositionPatient], None) for ds in dss]
             else:
                 ds = sources.enhanced_multiframe(nfr, 3, 4, orientation=pl['ori'], origin=pl['pos'], pixel_spacing=pl['ps'], slice_spacing=sl)
+                if kind == 'perframe_all':
+                    # orientation and pixel measures (with the slice spacing) per frame instead of shared
+                    sh = ds.SharedFunctionalGroupsSequence[0]
+                    for it in ds.PerFrameFunctionalGroupsSequence:
+                        it.PlaneOrientationSequence = copy.deepcopy(sh.PlaneOrientationSequence)
+                        it.PixelMeasuresSequence = copy.deepcopy(sh.PixelMeasuresSequence)
+                    del sh.PlaneOrientationSequence
+                    del sh.PixelMeasuresSequence
                 if kind == 'shared':
                     # position in the shared functional groups (one plane for all frames)
                     pp = ds.PerFrameFunctionalGroupsSequence[0].PlanePositionSequence
@@ -819,7 +828,7 @@ def _dataset_cases(ctx, reqs, pend):
         # tiled slide images
         tr_, tc_ = r.randint(1, 4), r.randint(1, 4)
         trows, tcols = r.randint(1, 9), r.randint(1, 9)
-        full = kind == 'full'
+        full = kind in ('full', 'full_multi')
         nth, ntw = -(-trows // tr_), -(-tcols // tc_)
         omit = []
         if not full and nth * ntw > 1 and r.random() < 0.5:
@@ -828,6 +837,33 @@ def _dataset_cases(ctx, reqs, pend):
         ds, _ = sources.slide_image(trows, tcols, tr_, tc_, tiled_full=full, origin=origin, pixel_spacing=pl['ps'],
                                     orientation=pl['ori'], omit=omit)
         tiles = [(a, b) for a in range(nth) for b in range(ntw) if (a, b) not in set(omit)]
+        if kind == 'full_multi':
+            # two optical paths x two focal planes: frames ordered path-major, then focal plane, then tiles; focal plane k
+            # lies (k-1) * SpacingBetweenSlices above the total pixel matrix along z of the slide
+            zsp = _spacing(r)
+            ds.SharedFunctionalGroupsSequence[0].PixelMeasuresSequence[0].SpacingBetweenSlices = zsp
+            ds.NumberOfOpticalPaths = 2
+            ds.OpticalPathSequence = DSeq([copy.deepcopy(ds.OpticalPathSequence[0]), copy.deepcopy(ds.OpticalPathSequence[0])])
+            ds.OpticalPathSequence[1].OpticalPathIdentifier = '2'
+            ds.TotalPixelMatrixFocalPlanes = 2
+            ds.PixelData = ds.PixelData * 4
+            ds.NumberOfFrames = 4 * len(tiles)
+            ntile = len(tiles)
+            for f in range(4 * ntile):
+                a, b = tiles[f % ntile]
+                plane = (f // ntile) % 2
+                st, tf = _call(sp.PixelToReferenceTransformer.for_image, ds, frame_number=f + 1)
+                ctx.case(fn='for_image', kind=kind, outcome=st if st == 'ok' else tf,
+                         nontrivial_key=('ds', kind, 'frame', pl['cls'], plane, f // (2 * ntile)) if st == 'ok' else None)
+                if st != 'ok':
+                    ctx.fail(dict(case, frame=f + 1), f'refused: {tf}', site='for_image')
+                    continue
+                want = np.array(origin) + b * tc_ * pl['ps'][1] * row + a * tr_ * pl['ps'][0] * col + np.array([0.0, 0.0, plane * zsp])
+                if np.abs(tf.affine[:3, 3] - want).max() > 1e-9 * (1 + np.abs(want).max()):
+                    ctx.fail(dict(case, frame=f + 1, tile=[a, b], focal_plane=plane + 1),
+                             {'what': 'frame position of a TILED_FULL image with several optical paths / focal planes',
+                              'got': tf.affine[:3, 3].tolist(), 'want': want.tolist()}, site='frame_vs_total')
+            continue
         st, ttot = _call(sp.PixelToReferenceTransformer.for_image, ds, for_total_pixel_matrix=True)
         ctx.case(sample=case if i % 5 == 0 else None, fn='for_image', kind=kind, outcome=st if st == 'ok' else ttot,
                  nontrivial_key=('ds', kind, 'total', pl['cls']) if st == 'ok' else None)
